@@ -146,7 +146,7 @@ func (descCollator) RankValues(a, b int) age.Rank {
 // other way round).  Both orders distinguish exactly the same values, so the members are the set-theoretic
 // ones; the result is an ordered set in the order of the first operand, whose collator every one of the
 // four operations hands to the result.
-var c15mixed = [][2]int{{0, 0}, {1, 0}, {0, 1}, {1, 1}, {2, 1}, {1, 2}, {2, 2}, {3, 2}, {2, 3}, {3, 3}}
+var c15mixed = [][2]int{{0, 0}, {1, 0}, {0, 1}, {1, 1}, {2, 1}, {1, 2}, {2, 2}, {3, 2}, {0, 2}, {0, 3}, {2, 3}, {3, 3}}
 
 func VF_C15_MixedCollators(sizes, opmax int) {
 	na, nb := c15mixed[sizes][0], c15mixed[sizes][1]
@@ -190,6 +190,57 @@ func VF_C15_MixedCollators(sizes, opmax int) {
 		ok = vf.And(ok, want(member(xs, g), member(ys, g)))
 	}
 	vf.Assert("mixed-exact-members", ok)
+	vf.BudgetReset()
+	vf.Reach("end")
+}
+
+// VF_C15_Composite: the four operations on sets of slices (default collator); ma, mb are bit masks over the
+// table of slices.  Exact members, lexicographic order, and every collator involved is back at depth 0.
+func VF_C15_Composite(masks, op int) {
+	ma, mb := masks%32, masks/32
+	pick := func(m int) (out [][]int) {
+		for i := 0; i < 5; i++ {
+			if m&(1<<i) != 0 {
+				out = append(out, c02slices[i])
+			}
+		}
+		return
+	}
+	xs, ys := pick(ma), pick(mb)
+	vf.Budget(400 * listBudget)
+	cls := col.Set[[]int](nil)
+	A, B := cls.MakeFromArray(xs), cls.MakeFromArray(ys)
+	var r col.SetLike[[]int]
+	switch op {
+	case 0:
+		r = cls.And(A, B)
+	case 1:
+		r = cls.Or(A, B)
+	case 2:
+		r = cls.Sans(A, B)
+	default:
+		r = cls.Xor(A, B)
+	}
+	in := func(set [][]int, v []int) bool {
+		for _, e := range set {
+			if sameSlice(e, v) {
+				return true
+			}
+		}
+		return false
+	}
+	want := wantOp(op)
+	got := r.AsArray()
+	ok := true
+	for i := 0; i < 5; i++ {
+		v := c02slices[i]
+		ok = ok && in(got, v) == want(in(xs, v), in(ys, v))
+	}
+	for i := 0; i+1 < len(got); i++ {
+		ok = ok && lexLess(got[i], got[i+1])
+	}
+	vf.Assert("composite-exact-members-in-order", ok)
+	vf.Assert("collators-back-at-depth-zero", A.GetCollator().GetDepth() == 0 && B.GetCollator().GetDepth() == 0 && r.GetCollator().GetDepth() == 0)
 	vf.BudgetReset()
 	vf.Reach("end")
 }
